@@ -134,6 +134,13 @@ def main(argv=None):
     for k, h in sorted(known_hit.items()):
         print("KNOWN-FINDING: property=%s %s [key=%s, observed %d times]" % (
             prop, h["entry"]["what"], k, h["count"]))
+    if not a.replay:
+        # every listed finding is named on every run; one whose (rare) precondition this workload did not meet says so
+        for e in known:
+            k = e["key"] if isinstance(e["key"], str) else e["key"][0]
+            if k not in known_hit:
+                print("KNOWN-FINDING: property=%s %s [key=%s, listed; its precondition was not met by this run's workload (observed 0 times)]" % (
+                    prop, e["what"], k))
 
     replay_paths = []
     if unlisted:
